@@ -625,8 +625,6 @@ def _apply_guard(uid: str, body: str, expr: str, lk: str, mode: str) -> Tuple[st
         edits = []
         tail_start = None
         if last not in (";", "}", "{"):
-            if mode != "x":
-                raise ExtractError("%s: the scope of guard `%s` ends in a tail expression; cannot place the release" % (uid, name))
             d2, ls = 0, k
             for z in range(k + 1, cb):
                 tz = toks[z].text
@@ -645,6 +643,9 @@ def _apply_guard(uid: str, body: str, expr: str, lk: str, mode: str) -> Tuple[st
             if ls < 0:
                 raise ExtractError("%s: cannot delimit the tail expression of the scope of guard `%s`" % (uid, name))
             tail_start = ls + 1
+            # a data guard (w / r) may be released in front of the tail's value only if the tail does not use the guarded data
+            if mode != "x" and any(tt.kind == "id" and tt.text == name for tt in toks[tail_start:cb]):
+                raise ExtractError("%s: the scope of guard `%s` ends in a tail expression that uses the guard; cannot place the release" % (uid, name))
         q = k + 1
         while q < cb:
             t = toks[q]
